@@ -24,10 +24,11 @@ from vlib import core
 from props import c19_source
 
 PID = 'C19'
-GENERATORS = [('endpoints2coq.py', 'Gen/AccessTable.v'), ('security2coq.py', 'Gen/SecurityGen.v')]
+GENERATORS = [('endpoints2coq.py', 'Gen/AccessTable.v'), ('security2coq.py', 'Gen/SecurityGen.v'),
+              ('static2coq.py', 'Gen/StaticGen.v')]
 META = {
-    'text': 'Coq: fe._static modelled function-for-function with the operating system (Path.resolve/is_dir/is_file, each may raise) as unconstrained Section oracles; proved for ALL oracles, request strings and roots: whatever is served is the very path that was checked, is a prefix-extension of a resolved root and a regular file (C19_contained), and files inside a root are served (non-vacuity). Access: allow-list, is_sanctioned decision and the endpoint registrations are regenerated from the Python source on every run (fail-closed translator, effect markers per handler); proved: an anonymous caller with certificates configured can only invoke allow-listed endpoints, those are GET-only, non-command, effect-free; a raising/missing hook denies; denied never invokes. Source tie by translation (security2coq.py on pyfrag): security.is_sanctioned / sanctioned / identity, DynamicContent.__init__ (methods default), __render (certificate extraction, check BEFORE the handler, method test) and the render_<VERB> table are regenerated from the source on every run (Gen/SecurityGen.v) and PROVED equal to Model/Access.v / Gen/AccessTable.v for all arguments (C19_*_is_source); the generated definitions are validated on every run against the real functions and the real render path. Tied to the real code by correspondence on real directory trees with recorded OS answers and by driving every endpoint x verb x certificate x hook through the real twisted render path.',
-    'note': 'Trusted: Coq kernel; security2coq.py translator (+ pyfrag.py, pyfrag_fx.py; what stands for the hook lookup, the peer certificate and the pinned bookkeeping statements of __render is declared at the top of the script); endpoints2coq.py translator (validated each run against the runtime resource tree: uris, methods, handler identities, routing); the recorder wrappers around pathlib.Path.resolve/is_dir/is_file; the fake twisted request/transport; canonical Path.resolve (OS). Not covered: Twisted URL decoding before render; fe._static is not translated (break/continue and three raising OS calls inside the loop are outside the fragment): hand model + correspondence; the style-sheet inlining of the deprecated site after a file was accepted; TOCTOU between check and open. No axioms.',
+    'text': 'Coq: fe._static modelled function-for-function with the operating system (Path.resolve/is_dir/is_file, each may raise) as unconstrained Section oracles; proved for ALL oracles, request strings and roots: whatever is served is the very path that was checked, is a prefix-extension of a resolved root and a regular file (C19_contained), and files inside a root are served (non-vacuity). Access: allow-list, is_sanctioned decision and the endpoint registrations are regenerated from the Python source on every run (fail-closed translator, effect markers per handler); proved: an anonymous caller with certificates configured can only invoke allow-listed endpoints, those are GET-only, non-command, effect-free; a raising/missing hook denies; denied never invokes. Source tie by translation: fe._static up to `if found:` (the loop with continue / break / raising OS calls, static2coq.py -> Gen/StaticGen.v) is regenerated on every run and PROVED equal to Model/Static.v for all oracles, so containment holds of the generated function itself (C19_static_is_source, C19_contained_is_source); (security2coq.py on pyfrag): security.is_sanctioned / sanctioned / identity, DynamicContent.__init__ (methods default), __render (certificate extraction, check BEFORE the handler, method test) and the render_<VERB> table are regenerated from the source on every run (Gen/SecurityGen.v) and PROVED equal to Model/Access.v / Gen/AccessTable.v for all arguments (C19_*_is_source); the generated definitions are validated on every run against the real functions and the real render path. Tied to the real code by correspondence on real directory trees with recorded OS answers and by driving every endpoint x verb x certificate x hook through the real twisted render path.',
+    'note': 'Trusted: Coq kernel; static2coq.py translator (dedicated walker; pathlib lexical operations are those of Static.v; `if found:` pinned by text); security2coq.py translator (+ pyfrag.py, pyfrag_fx.py; what stands for the hook lookup, the peer certificate and the pinned bookkeeping statements of __render is declared at the top of the script); endpoints2coq.py translator (validated each run against the runtime resource tree: uris, methods, handler identities, routing); the recorder wrappers around pathlib.Path.resolve/is_dir/is_file; the fake twisted request/transport; canonical Path.resolve (OS). Not covered: Twisted URL decoding before render; the style-sheet inlining of the deprecated site after a file was accepted; TOCTOU between check and open. No axioms.',
     'technique': 'Coq proof (all oracles) + source-generated tables + access decision translated from the source and proved equal to the model + model/implementation correspondence + implementation-only oracle',
 }
 
@@ -325,9 +326,18 @@ def static_half(ctx, only=None):
             tfil = '[' + ';'.join('(%s,%s)' % (pb(a), opt(b2, bl))
                                   for a, b2, _ in rec['is_file']) + ']'
             per_tree.setdefault(tr['name'], (tr, base, [], []))
+            # with the source tie: the hand-written model AND the function
+            # generated from fe/__init__.py of today, on the same recorded oracle
+            # (every 4th request of a tree: the evaluation is dominated by the
+            # look-ups in the recorded tables, a second function doubles it)
+            per_tree.setdefault(tr['name'], (tr, base, [], []))
+            pair = bool(ctx.extra.get('static_gen')) and len(per_tree[tr['name']][2]) % 4 == 0
+            rq['gen_pair'] = pair
+            head = ('(fun r d f fn a b => (Static.static r d f fn a b, StaticGen.static r d f fn a b))'
+                    if pair else 'Static.static')
             per_tree[tr['name']][2].append(
-                'static (tbl_resolve %s) (tbl_bool %s) (tbl_bool %s) (S_ [%s]) %s %s'
-                % (tres, tdir, tfil, ';'.join(str(ord(c)) for c in fn),
+                '%s (tbl_resolve %s) (tbl_bool %s) (tbl_bool %s) (S_ [%s]) %s %s'
+                % (head, tres, tdir, tfil, ';'.join(str(ord(c)) for c in fn),
                    pb(tr['fe']), pb(tr['bd'])))
             per_tree[tr['name']][3].append((tr, rq))
     if ctx.nviol > viol0:
@@ -348,35 +358,49 @@ def static_half(ctx, only=None):
                 % (tag, tag))
         exprs += ex
         meta += ms
-    vals = ctx.coq_eval(['DV.Model.Static'], exprs, preamble=pre,
-                        z_scope=False, chunk=90)
+    with_gen = bool(ctx.extra.get('static_gen'))
+    vals = ctx.coq_eval(['DV.Model.Static'] + (['DV.Gen.StaticGen'] if with_gen else []), exprs,
+                        preamble=pre, z_scope=False, chunk=90)
     ctx.log('static model evaluated: %d cases' % len(vals))
     mism = None
     keys = []
-    for (tr, rq), v in zip(meta, vals):
-        fn, obs = rq['fn'], rq['obs']
+
+    def expected(tr, v):
         if v[0] == 'Served':
             p = path_str(v[1])
-            exp = {'bytes': tr['files'].get(p, '<unknown file %s>' % p)}
-        elif v[0] == 'NotFound':
+            return {'bytes': tr['files'].get(p, '<unknown file %s>' % p)}
+        if v[0] == 'NotFound':
             b = PREFIX
             for e in v[1]:
                 if e[0] == 'Jail':
                     b += b'attempted jail break'
                 else:
                     b += os.fsencode(path_str(e[1])) + b'     '
-            exp = {'bytes': b.decode('latin-1')}
-        else:
-            exp = {'exc': True}
+            return {'bytes': b.decode('latin-1')}
+        return {'exc': True}
+    gen_bad = None
+    ngen = 0
+    for (tr, rq), v in zip(meta, vals):
+        fn, obs = rq['fn'], rq['obs']
+        g = None
+        if rq.get('gen_pair'):
+            v, g = v
+            ngen += 1
+        exp = expected(tr, v)
         got = {'exc': True} if 'exc' in obs else obs
         if got != exp and mism is None:
             mism = (tr['name'], fn, exp, obs)
+        if g is not None and gen_bad is None and expected(tr, g) != got:
+            gen_bad = {'tree': tr['name'], 'request': fn, 'generated': expected(tr, g), 'python': obs}
         if nontrivial_static(fn):
             keys.append(('static', tr['name'], fn))
     ctx.count(evaluations=len(vals), nontrivial_keys=keys)
     ctx.note('static_outcomes', hist)
     ctx.note('static_skipped_large_codepoints', big)
     ctx.note('static_trees', [t['name'] for t in ts])
+    if with_gen:
+        ctx.extra['static_gen_bad'] = gen_bad
+        ctx.note('source_tie_static', {'requests_compared': ngen, 'generated_vs_python_mismatch': gen_bad})
     if meta:
         tr, rq = meta[min(2, len(meta) - 1)]
         ctx.sample({'tree': tr['name'], 'request': rq['fn'],
@@ -579,9 +603,10 @@ def run(ctx):
     # ---- generate + prove ---------------------------------------------------
     ok, msg = ctx.generate('endpoints2coq.py', 'Gen/AccessTable.v')
     gsec = c19_source.security_generate(ctx)
+    gsta = c19_source.static_generate(ctx)
     ctx.log('generated')
     r = ctx.coq_props() if ok else {'ok': False, 'failing': 'translator', 'log': msg}
-    if not ok or not gsec['ok']:
+    if not ok or not gsec['ok'] or not gsta['ok']:
         if not ok:
             ctx.coq_props()
         # a refused source leaves the previous Gen file in place: what was
@@ -598,6 +623,8 @@ def run(ctx):
     before = ctx.nviol
     mism_s, ns = (None, 0)
     if static_model:
+        # the generated _static is evaluated beside the model when it exists and compiles
+        ctx.extra['static_gen'] = gsta['ok'] and (r['ok'] or ctx.coq_build(['Gen/StaticGen.vo'])[0])
         mism_s, ns = static_half(ctx)
     gen_ok = ok and (r['ok'] or ctx.coq_build(['Model/Access.vo'])[0])
     mism_a, na = access_half(ctx, gen_ok)
@@ -606,6 +633,7 @@ def run(ctx):
     # property is searched on the python functions
     c19_source.security_validate(ctx, gsec, ctx.extra.get('access_out'))
     found = ctx.nviol > before or bool(ctx.known_hits)
+    c19_source.static_verdict(ctx, gsta, found)
 
     if not ok and not found:
         ctx.broken('translator endpoints2coq.py refuses the source', msg,
